@@ -13,9 +13,9 @@ use std::sync::Mutex;
 use vmodel::par::par_for;
 use vmodel::{Reporter, Tier};
 
-const NAMES: [&str; 3] = ["en", "fr", "de"];
+const NAMES: [&str; 4] = ["en", "fr", "de", "en-US"];
 fn loc(i: usize) -> Locale {
-    [Locale::en, Locale::fr, Locale::de][i]
+    [Locale::en, Locale::fr, Locale::de, Locale::en_US][i]
 }
 fn idx(l: Locale) -> usize {
     NAMES.iter().position(|n| *n == l.as_str()).unwrap()
@@ -52,11 +52,15 @@ pub struct Model {
     pub wired: Vec<Option<(usize, Option<usize>)>>,
     pub accessors: Vec<usize>, // context each accessor set was made from
     pub has_scope_setter: Vec<bool>,
+    /// the last write to the context was `set_locale_untracked`: subscribers were not told, they may be stale
+    pub untracked_last: Vec<bool>,
+    /// effects ran since the last write to the context
+    pub polled: Vec<bool>,
 }
 
 impl Model {
     pub fn new() -> Model {
-        Model { cands: vec![[0].into()], wired: vec![None], accessors: vec![], has_scope_setter: vec![false] }
+        Model { cands: vec![[0].into()], wired: vec![None], accessors: vec![], has_scope_setter: vec![false], untracked_last: vec![false], polled: vec![true] }
     }
     pub fn enabled(&self, max_ctx: usize, set_locales: &[usize]) -> Vec<Op> {
         let mut v = vec![];
@@ -87,6 +91,8 @@ impl Model {
     pub fn apply(&mut self, op: Op) {
         match op {
             Op::Set(c, l) | Op::SetUntracked(c, l) | Op::SetViaScope(c, l) => {
+                self.untracked_last[c] = matches!(op, Op::SetUntracked(..));
+                self.polled[c] = false;
                 let pending = self.wired[c].and_then(|w| w.1);
                 self.cands[c] = [l].into();
                 if let Some(p) = pending {
@@ -105,8 +111,11 @@ impl Model {
                     _ => None,
                 });
                 self.has_scope_setter.push(false);
+                self.untracked_last.push(false);
+                self.polled.push(false);
             }
             Op::SigSet(c, l) => {
+                self.polled[c] = false;
                 if let Some((w, pending)) = &mut self.wired[c] {
                     if *w != l {
                         *w = l;
@@ -118,8 +127,15 @@ impl Model {
                     }
                 }
             }
-            Op::MakeAccessors(c) => self.accessors.push(c),
+            Op::MakeAccessors(c) => {
+                self.accessors.push(c);
+                // the new effect has not run yet
+                self.polled[c] = false;
+            }
             Op::Poll => {
+                for p in self.polled.iter_mut() {
+                    *p = true;
+                }
                 for c in 0..self.cands.len() {
                     if let Some((_, pending)) = &mut self.wired[c] {
                         if let Some(p) = pending.take() {
@@ -149,6 +165,8 @@ struct Real {
     owners: Vec<Owner>,
     wired: Vec<Option<RwSignal<Locale>>>,
     accessors: Vec<(usize, Vec<(&'static str, Reader)>)>,
+    /// subscribers: a memo over `t_string!` and an effect writing what it sees into a sink
+    reactive: Vec<(usize, Memo<String>, std::sync::Arc<std::sync::Mutex<Option<String>>>)>,
 }
 
 fn no_header() -> UseLocalesOptions {
@@ -172,7 +190,7 @@ impl Real {
         let opts = I18nContextOptions::<Locale>::default().enable_cookie(false).ssr_lang_header_getter(no_header());
         let root = Owner::current().expect("owner");
         let ctx: I18nContext<Locale> = init_i18n_context_with_options(opts);
-        Real { ctxs: vec![ctx], owners: vec![root], wired: vec![None], accessors: vec![] }
+        Real { ctxs: vec![ctx], owners: vec![root], wired: vec![None], accessors: vec![], reactive: vec![] }
     }
     fn apply(&mut self, op: Op) {
         match op {
@@ -225,6 +243,15 @@ impl Real {
                     ("t_string!(scoped leaf)", Box::new(move || t_string!(scoped, leaf, name = "N").to_string())),
                 ];
                 self.accessors.push((c, readers));
+                let memo = Memo::new(move |_| t_string!(ctx, hello).to_string());
+                let sink = std::sync::Arc::new(std::sync::Mutex::new(None));
+                let sink2 = sink.clone();
+                self.owners[c].with(|| {
+                    Effect::new(move |_| {
+                        *sink2.lock().unwrap() = Some(t_string!(ctx, greet, name = "N").to_string());
+                    })
+                });
+                self.reactive.push((c, memo, sink));
             }
             Op::Poll => poll(),
         }
@@ -278,6 +305,24 @@ fn replay(history: &[Op], snapshots: Option<&mut Vec<String>>) -> Option<String>
                     let text = r();
                     if text != expected_text(name, got) {
                         return Some(format!("after step {step} ({op:?}) accessor {name} made earlier from context {c} gives {text:?} while the context reads {}", NAMES[got]));
+                    }
+                }
+            }
+            // subscribers created earlier: told of every tracked write (a memo at once, an effect once effects ran);
+            // after an untracked write they may lag until the next tracked one
+            for (c, memo, sink) in &real.reactive {
+                let got = idx(real.ctxs[*c].get_locale_untracked());
+                if model.untracked_last[*c] || model.cands[*c].len() != 1 {
+                    continue;
+                }
+                let m = memo.get_untracked();
+                if m != expected_text("hello", got) {
+                    return Some(format!("after step {step} ({op:?}) a memo over t_string!(hello) created earlier from context {c} holds {m:?} while the context reads {}", NAMES[got]));
+                }
+                if model.polled[*c] {
+                    let e = sink.lock().unwrap().clone();
+                    if e.as_deref() != Some(expected_text("greet", got).as_str()) {
+                        return Some(format!("after step {step} ({op:?}) an effect over t_string!(greet) created earlier from context {c} last saw {e:?} while the context reads {}", NAMES[got]));
                     }
                 }
             }
